@@ -211,6 +211,11 @@ func ExtractTerms(ctx *Context, fact map[string]interface{}) []string {
 }
 
 func extractTermsAux(ctx *Context, x interface{}, terms StringSet, depth int) {
+	if m, isMap := x.(Map); isMap {
+		// The matcher treats a Map like a map[string]interface{}
+		// (see 'cast'), so we need the same terms here.
+		x = map[string]interface{}(m)
+	}
 	switch vv := x.(type) {
 	case string:
 		if !IsVariable(vv) {
@@ -243,9 +248,17 @@ func extractTermsAux(ctx *Context, x interface{}, terms StringSet, depth int) {
 			extractTermsAux(ctx, s, terms, depth+1)
 		}
 	default:
-		// We don't index what we don't understand -- or what
-		// we otherwise choose to ignore.  Numbers, for
-		// example.
+		// The matcher also looks into any other kind of slice.
+		if ys, ok := ISlice(x); ok {
+			if zs, ok := ys.([]interface{}); ok {
+				for _, y := range zs {
+					extractTermsAux(ctx, y, terms, depth+1)
+				}
+			}
+		}
+		// Otherwise we don't index what we don't understand
+		// -- or what we otherwise choose to ignore.  Numbers,
+		// for example.
 	}
 	if loggable(ctx, DEBUG) {
 		Log(DEBUG, ctx, "core.extractTermsAux", "input", Gorep(x), "terms", terms)
